@@ -62,7 +62,8 @@ func VxC14FailedCloseIsRepaired() {
 	mw := &vxClosingWriter{closeFails: vx.Bool("close-fails")}
 	synced := int64(vx.U64("synced-offset"))
 	vx.Assume(synced >= 0)
-	w := &walWriter{dir: "wal", writer: mw, currentWALNum: 1, nextWALNum: 2, currentWALSyncedOffset: synced}
+	w := newWALWriter(nil, "wal", 2)
+	w.writer, w.currentWALNum, w.currentWALSyncedOffset = mw, 1, synced
 	op := vx.Choice("operation", 3)
 	var err error
 	switch op {
